@@ -667,6 +667,172 @@ def recognise_containers(prog, g):
     return n[0]
 
 
+# --------------------------------------------------------------------------
+# pointer results that are NULL on one path and an object on the other (`while ((t = pop(&q)) != NULL)`)
+# --------------------------------------------------------------------------
+
+_NN = '#nn'
+
+
+def _nn_var(name):
+    return {'k': 'var', 'name': name + _NN, 'vk': 'local', 'type': 'int'}
+
+
+def thread_nullness(g, max_blocks=1200):
+    """A helper that hands back the next object *or NULL* (`return NULL` when the list is empty, else the unlinked first
+    entry) correlates the outcome of its emptiness test with the caller's `!= NULL` test.  A must-analysis loses that at the
+    join behind the helper's returns and then sees the path "list empty, pointer not NULL" (and "list not empty, pointer
+    NULL").  This pass makes the correlation explicit in the CFG, exactly as flag partitioning does for integer results:
+    a pointer local all of whose definitions are the null constant, an expression that is never null (the address of an
+    object or member, the container of a list node) or a copy of another such local gets a shadow flag (0 = null, 1 = not
+    null) next to every definition, NULL tests of the local become tests of the flag, and core's trace partitioning
+    (`_partition_one`) threads the flag.  Every path of the result is a path of the source with the same events; only
+    edges are removed whose condition contradicts the value the pointer was given on that very path."""
+    from ..core import _partition_one
+    defs, taken = {}, set()
+    for e in g.events():
+        if e['ev'] in ('call', 'store', 'ret'):
+            for key in ('rhs', 'args', 'value', 'fnexpr'):
+                x = e.get(key)
+                for y in (x if isinstance(x, list) else [x]):
+                    if isinstance(y, dict):
+                        for z in walk(y):
+                            if z.get('k') == 'addr' and isinstance(strip(z.get('e')), dict) and strip(z['e']).get('k') == 'var':
+                                taken.add(strip(z['e'])['name'])
+        if e['ev'] == 'store':
+            l = strip(e['lhs'])
+            if isinstance(l, dict) and l.get('k') == 'var' and l.get('vk') == 'local' and l is e['lhs']:
+                defs.setdefault(l['name'], []).append(e)
+    params = {q['name'] for q in g.params}
+
+    def klass(e):
+        if e.get('op') != '=' or 'rhs' not in e:
+            return None
+        r = strip(e['rhs'])
+        if not isinstance(r, dict):
+            return None
+        if r.get('k') == 'null':
+            return ('N',)
+        if r.get('k') in ('addr', 'container_of'):
+            return ('P',)
+        if r.get('k') == 'var' and r.get('vk') == 'local':
+            return ('V', r['name'])
+        return None
+    ok = {v for v in defs if v not in taken and v not in params and not v.endswith(_NN)
+          and '*' in (strip(defs[v][0]['lhs']).get('type') or '') and all(klass(e) for e in defs[v])}
+    changed = True
+    while changed:
+        changed = False
+        for v in sorted(ok):
+            if any(klass(e)[0] == 'V' and klass(e)[1] not in ok for e in defs[v]):
+                ok.discard(v)
+                changed = True
+    # only locals whose value can be null on some path and an object on another are of interest
+
+    def reach(v, what, seen=None):
+        seen = seen or set()
+        if v in seen:
+            return False
+        seen.add(v)
+        return any(klass(e)[0] == what or (klass(e)[0] == 'V' and reach(klass(e)[1], what, seen)) for e in defs[v])
+    work = [v for v in ok if reach(v, 'N') and reach(v, 'P')]
+    ok = set()
+    while work:                     # ... and the locals they are copies of
+        v = work.pop()
+        if v not in ok:
+            ok.add(v)
+            work += [klass(e)[1] for e in defs[v] if klass(e)[0] == 'V']
+    if not ok:
+        return 0
+
+    def tested_var(x):
+        """the tracked local whose value the operand x of a NULL test is"""
+        x = strip(x)
+        if isinstance(x, dict) and x.get('k') == 'assign' and x.get('op', '=') == '=':
+            return tested_var(x.get('r'))
+        if isinstance(x, dict) and x.get('k') == 'var' and x.get('name') in ok:
+            return x['name']
+        return None
+
+    def is_zero(x):
+        x = strip(x)
+        return isinstance(x, dict) and (x.get('k') == 'null' or (x.get('k') == 'int' and x.get('v') == 0))
+
+    def rewrite(c):
+        """the condition with NULL tests of tracked locals replaced by tests of their flags (None: nothing to replace)"""
+        y = strip(c)
+        if not isinstance(y, dict):
+            return None
+        v = tested_var(y)
+        if v is not None:
+            return {'k': 'bin', 'op': '!=', 'l': {'k': 'load', 'e': _nn_var(v)}, 'r': {'k': 'int', 'v': 0}}
+        if y.get('k') == 'un' and y.get('op') == '!':
+            r = rewrite(y.get('e'))
+            return None if r is None else dict(r, op='==' if r['op'] == '!=' else '!=')
+        if y.get('k') == 'bin' and y.get('op') in ('==', '!='):
+            for a, b in ((y['l'], y['r']), (y['r'], y['l'])):
+                v = tested_var(a)
+                if v is not None and is_zero(b):
+                    return {'k': 'bin', 'op': y['op'], 'l': {'k': 'load', 'e': _nn_var(v)}, 'r': {'k': 'int', 'v': 0}}
+        return None
+    tests = {}
+    for b, blk in g.blocks.items():
+        if blk.term and blk.term.get('cond') is not None and len(blk.succ) == 2 and blk.term.get('cls') not in ('SwitchStmt', 'MethodDispatch'):
+            r = rewrite(blk.term['cond'])
+            if r is not None:
+                tests[b] = r
+    if not tests:
+        return 0
+    # shadow stores next to the definitions, tests on the shadows
+    for blk in g.blocks.values():
+        out = []
+        for e in blk.events:
+            out.append(e)
+            l = strip(e['lhs']) if e['ev'] == 'store' else None
+            if e['ev'] == 'store' and l is e['lhs'] and isinstance(l, dict) and l.get('k') == 'var' and l.get('name') in ok:
+                k = klass(e)
+                rhs = {'k': 'int', 'v': 0} if k[0] == 'N' else {'k': 'int', 'v': 1} if k[0] == 'P' else {'k': 'load', 'e': _nn_var(k[1])}
+                sh = {'ev': 'store', 'op': '=', 'lhs': _nn_var(l['name']), 'rhs': rhs, 'loc': e['loc'], 'used': False, 'synthetic': True}
+                for key in ('fn', 'chain'):
+                    if key in e:
+                        sh[key] = e[key]
+                out.append(sh)
+        blk.events = out
+    for b, r in tests.items():
+        g.blocks[b].term = dict(g.blocks[b].term, cond=r, _nn_orig=g.blocks[b].term['cond'])
+    for b in g.blocks.values():
+        for i, e in enumerate(b.events):
+            e['_b'], e['_i'] = b.id, i
+    g._preds = None
+    # thread the flags, sources of copies first
+    order, left = [], set(ok)
+    while left:
+        ready = sorted(v for v in left if all(klass(e)[0] != 'V' or klass(e)[1] not in left or klass(e)[1] == v for e in defs[v]))
+        if not ready:
+            ready = sorted(left)
+        order += ready
+        left -= set(ready)
+    n = 0
+    for v in order:
+        if _partition_one(g, v + _NN, max_blocks):
+            n += 1
+    # what could not be decided keeps the condition as it was written; the shadow stores are no events of the program
+    for blk in g.blocks.values():
+        if blk.term and '_nn_orig' in blk.term:
+            t = dict(blk.term)
+            orig = t.pop('_nn_orig')
+            if t.get('cond') is not None:
+                t['cond'] = orig
+            blk.term = t
+        blk.events = [e for e in blk.events if not (e['ev'] == 'store' and isinstance(e['lhs'], dict) and e['lhs'].get('k') == 'var'
+                                                    and str(e['lhs'].get('name', '')).endswith(_NN))]
+    for b in g.blocks.values():
+        for i, e in enumerate(b.events):
+            e['_b'], e['_i'] = b.id, i
+    g._preds = None
+    return n
+
+
 def inline_root(prog, f, **kw):
     """the root with its helpers inlined, plus the local normalisations (addresses cached in pointer locals,
     written-out list primitives, out-parameters, results of inlined helpers read in a later block)"""
@@ -677,6 +843,8 @@ def inline_root(prog, f, **kw):
     fold_constant_branches(g)
     recognise_containers(prog, g)
     normalise_lists(g)
+    if thread_nullness(g):
+        fold_constant_branches(g)
     return g
 
 
@@ -983,10 +1151,74 @@ class TaskFlow:
         self.redefined = {local_name(e['lhs']) for e in g.events() if e['ev'] == 'store' and local_name(e['lhs'])}
         _, self.at = forward(g, frozenset(), self.transfer, self.join, edge=self.edge)
 
+    # -- object tokens at control-flow joins ----------------------------------
+    # A token names the object a pointer local denotes by the *definition* it came from.  When two definitions of the same
+    # local reach a join (the pointer is handed back by a helper that is inlined at two call sites, a peeled iteration, the
+    # arms of an if/else), the local denotes "whichever of the two": token ('phi', v).  A fact holds for it iff it holds for
+    # the object of either path on that path, which is exactly what the intersection computes after both sides renamed
+    # their own token.  Invariant: facts about ('phi', v) exist only while ('env', v, ('phi', v)) is in the state.
+    @staticmethod
+    def _retarget(S, pairs):
+        """pairs: {old token: [(new token, variables that move to it)]}; non-variable facts of old are copied to new"""
+        if not pairs:
+            return S
+        out = set()
+        for x in S:
+            k = x[0]
+            if k in ('env', 'H') and x[2] in pairs:
+                for (new, vs) in pairs[x[2]]:
+                    if x[1] in vs:
+                        x = (k, x[1], new)
+                        break
+                out.add(x)
+            elif k in ('unl', 'stamp') and x[1] in pairs:
+                out.add(x)
+                out.update((k, new) for (new, _) in pairs[x[1]])
+            elif k == 'alias' and x[1] in pairs:
+                out.add(x)
+                out.update(('alias', new, x[2]) for (new, _) in pairs[x[1]])
+            else:
+                out.add(x)
+        return frozenset(out)
+
+    @staticmethod
+    def _merge_tokens(a, b):
+        ea = {(x[0], x[1]): x[2] for x in a if x[0] in ('env', 'H')}
+        eb = {(x[0], x[1]): x[2] for x in b if x[0] in ('env', 'H')}
+        groups = {}
+        for kv, ta in ea.items():
+            tb = eb.get(kv)
+            if tb is not None and tb != ta:
+                groups.setdefault((ta, tb), set()).add(kv)
+        if not groups:
+            return a, b
+        pa, pb = {}, {}
+        for (ta, tb), kvs in groups.items():
+            ptrs = sorted(v for (k, v) in kvs if k == 'env')
+            if not ptrs:
+                continue            # only a handler-pointer local changed objects: no pointer names the merged object
+            new = ('phi', ptrs[0])
+            vs = {v for (_, v) in kvs}
+            pa.setdefault(ta, []).append((new, vs))
+            pb.setdefault(tb, []).append((new, vs))
+        return TaskFlow._retarget(a, pa), TaskFlow._retarget(b, pb)
+
+    @staticmethod
+    def _drop_orphans(S):
+        live = {x[2] for x in S if x[0] == 'env'}
+        dead = {t for x in S for t in ((x[2],) if x[0] == 'H' else (x[1],) if x[0] in ('unl', 'stamp', 'alias') else ())
+                if isinstance(t, tuple) and t and t[0] == 'phi' and t not in live}
+        for t in dead:
+            S = TaskFlow._kill_tok(S, t)
+        return S
+
     @staticmethod
     def join(a, b):
+        if a != b:
+            a, b = TaskFlow._merge_tokens(a, b)
         j = a & b
         if a != b:
+            j = TaskFlow._drop_orphans(j)
             # 'equals the counter' implies 'equals the counter unless there is no loop state'
             ea = {x[1] for x in a if x[0] in ('E', 'En')}
             eb = {x[1] for x in b if x[0] in ('E', 'En')}
@@ -1093,6 +1325,16 @@ class TaskFlow:
     # -- transfer ----------------------------------------------------------
     @staticmethod
     def _kill_var(S, v):
+        phi = ('phi', v)
+        if ('env', v, phi) in S:
+            # v stops denoting the merged object: another pointer local that denotes it takes the name over, else it is forgotten
+            others = sorted(x[1] for x in S if x[0] == 'env' and x[2] == phi and x[1] != v)
+            if others:
+                movers = {x[1] for x in S if x[0] in ('env', 'H') and x[2] == phi}
+                S = TaskFlow._retarget(S - {('env', v, phi)}, {phi: [(('phi', others[0]), movers)]})
+                S = frozenset(x for x in S if not (x[0] in ('unl', 'stamp', 'alias') and x[1] == phi))
+            else:
+                S = TaskFlow._kill_tok(S, phi)
         return frozenset(x for x in S if not ((x[0] in ('env', 'E', 'En', 'P1', 'M1', 'H', 'nostate', 'gone') and x[1] == v) or (x[0] == 'alias' and x[2] == v)))
 
     @staticmethod
